@@ -1,5 +1,7 @@
 import SpecVerif.Proofs.Lemmas.Eigen
+import SpecVerif.Proofs.Lemmas.EigenOnly
 import Mathlib.Data.Complex.Basic
+import Mathlib.Analysis.Complex.Basic
 /-
   C17 — MUSIC / EV pseudo-spectra (`eigenfre.py`: `eigen`, `pmusic`, `pev`).
 
@@ -276,6 +278,9 @@ example : fftBinOf 8 (-3) = 3 ∧ fftBinOf 8 2 = 6 := by decide
   i.e. a pole of the pseudo-spectrum — numerically the value `1/ε`.  Missing: tones between grid points
   (needs an analytic bound on the denominator near its zero), and that no other bin has a denominator as
   small (needs the noise-subspace projection of the other steering vectors to be bounded away from 0).
+  The exact-arithmetic half of the second gap is closed in §6b (`pole_iff_tone`,
+  `peaks_exactly_at_true_frequencies`): when the noise vectors span the null space of `FB`, the denominator
+  vanishes at NO other grid point and is a positive real there.
 -/
 /-- poles of the function output at the on-grid true frequencies -/
 theorem peaks_at_true_frequencies_partial [StarRing F] {ω : F} {nfft P : ℕ} (hn : 0 < nfft)
@@ -332,6 +337,295 @@ theorem pseudo_pos {F : Type} [RCLike F] (tw : List F) (cols : List (List F)) (S
   have hdpos : 0 < d := lt_of_le_of_ne hd (Ne.symm hd0)
   refine ⟨one_div_pos.mpr hdpos, ?_⟩
   rw [he, RCLike.ofReal_div, RCLike.ofReal_one]
+
+/-! ### 6b. the denominator vanishes ONLY at the true frequencies (`F = ℝ` or `ℂ`) -/
+
+section Only
+variable {F : Type} [RCLike F]
+open SpecVerif.EigenOnlyL
+
+/-- core (no reference to `FB`): `T < P`; the noise vectors `v_i`, `i ∈ [nsig, P)`, span the tone-null
+    space `{u : Σ_K u_K z_m^{-K} = 0, m < T}`; then at every grid point `ω^k` that is none of the tones the
+    denominator (MUSIC; EV with positive real floored noise singular values) is a POSITIVE real. -/
+theorem denominator_pos_off_tones {ω : F} {nfft P : ℕ} (hn : 0 < nfft) (hω : ω ^ nfft = 1)
+    (hstar : star ω = ω⁻¹) (hP : P ≤ nfft) (T : ℕ) (z : ℕ → F) (hT : T < P)
+    (cols : List (List F)) (S : List F) (nsig : ℕ) (ev : Bool) (v : ℕ → ℕ → F)
+    (hcols : ∀ i, nsig ≤ i → i < P → cols.getD i [] = vec P (fun K => -star (v i K)))
+    (hspan : ∀ u : ℕ → F, (∀ m, m < T → ∑ K ∈ range P, u K * (z m)⁻¹ ^ K = 0) →
+      ∃ a : ℕ → F, ∀ K, K < P → u K = ∑ i ∈ Ico nsig P, a i * v i K)
+    (hS : ev = true → ∀ i, nsig ≤ i → i < P → ∃ s : ℝ, 0 < s ∧ nth S i = (s : F))
+    (k : ℕ) (hk : ∀ m, m < T → ω ^ k ≠ z m) :
+    ∃ d : ℝ, 0 < d ∧ eigenDenom (twiddles ω nfft) cols S nsig P nfft ev k = (d : F) := by
+  obtain ⟨i, h1, h2, hne⟩ := exists_noise_nonvanishing P T nsig z v hT hspan (ω ^ k) hk
+  apply eigenDenom_pos_of_term _ cols S nsig P nfft ev k hS i h1 h2
+  rw [hcols i h1 h2, dftBin_neg_star_col hn hω hstar hP, neg_ne_zero, Ne, star_eq_zero]
+  exact hne
+
+/-- **the converse of `denominator_vanishes_at_tones`**: noiseless sum of `T < P` non-zero unit-modulus
+    tones; the noise vectors `v_i`, `i ∈ [nsig, P)`, SPAN the null space of the forward-backward matrix
+    (all `2·NP` rows) — what an exact SVD delivers for the zero singular value.  Then at every grid
+    point `ω^k` that is NOT a tone the denominator is a positive real, in particular non-zero: the
+    pseudo-spectrum has no pole off the true frequencies. -/
+theorem denominator_vanishes_only_at_tones {ω : F} {nfft P : ℕ} (hn : 0 < nfft) (hω : ω ^ nfft = 1)
+    (hstar : star ω = ω⁻¹) (hP : P ≤ nfft) (N T : ℕ) (c z : ℕ → F) (hT : T < P)
+    (hz0 : ∀ m, m < T → z m ≠ 0) (hunit : ∀ m, m < T → star (z m) = (z m)⁻¹)
+    (cols : List (List F)) (S : List F) (nsig : ℕ) (ev : Bool) (v : ℕ → ℕ → F)
+    (hcols : ∀ i, nsig ≤ i → i < P → cols.getD i [] = vec P (fun K => -star (v i K)))
+    (hspan : ∀ u : ℕ → F,
+      (∀ r, r < 2 * fbNP N P →
+        ∑ K ∈ range P, mentryM (fbMatrix (tones N T c z) P) r K * u K = 0) →
+      ∃ a : ℕ → F, ∀ K, K < P → u K = ∑ i ∈ Ico nsig P, a i * v i K)
+    (hS : ev = true → ∀ i, nsig ≤ i → i < P → ∃ s : ℝ, 0 < s ∧ nth S i = (s : F))
+    (k : ℕ) (hk : ∀ m, m < T → ω ^ k ≠ z m) :
+    ∃ d : ℝ, 0 < d ∧ eigenDenom (twiddles ω nfft) cols S nsig P nfft ev k = (d : F) := by
+  apply denominator_pos_off_tones hn hω hstar hP T z hT cols S nsig ev v hcols _ hS k hk
+  intro u hu
+  apply hspan u
+  intro r hr
+  by_cases h : r < fbNP N P
+  · exact (tone_null_space N P T c z u hz0 hu r h).1
+  · have e : fbNP N P + (r - fbNP N P) = r := by omega
+    have := (tone_null_space N P T c z u hz0 hu (r - fbNP N P) (by omega)).2 hunit
+    rw [e] at this
+    exact this
+
+/-- the same with the SVD contract in its usual form, `NSIG = T`: the `P - T` noise vectors are null
+    vectors of `FB` (only the first `T` forward rows are used) and LINEARLY INDEPENDENT (orthonormal in
+    the SVD); linear independence + the dimension count `dim ker = P - T` gives the spanning.  No
+    unit-modulus hypothesis is needed in this form. -/
+theorem denominator_vanishes_only_at_tones_of_linearIndependent {ω : F} {nfft P : ℕ} (hn : 0 < nfft)
+    (hω : ω ^ nfft = 1) (hstar : star ω = ω⁻¹) (hP : P ≤ nfft) (N T : ℕ) (c z : ℕ → F) (hT : T < P)
+    (hz0 : ∀ m, m < T → z m ≠ 0) (hc : ∀ m, m < T → c m ≠ 0)
+    (hzinj : ∀ m m', m < T → m' < T → z m = z m' → m = m') (hNP : T ≤ fbNP N P)
+    (cols : List (List F)) (S : List F) (ev : Bool) (v : ℕ → ℕ → F)
+    (hcols : ∀ i, T ≤ i → i < P → cols.getD i [] = vec P (fun K => -star (v i K)))
+    (hsvd : ∀ i, T ≤ i → i < P → ∀ I, I < T →
+      ∑ K ∈ range P, mentryM (fbMatrix (tones N T c z) P) I K * v i K = 0)
+    (hli : LinearIndependent F (fun (i : Fin (P - T)) (K : Fin P) => v (T + i) K))
+    (hS : ev = true → ∀ i, T ≤ i → i < P → ∃ s : ℝ, 0 < s ∧ nth S i = (s : F))
+    (k : ℕ) (hk : ∀ m, m < T → ω ^ k ≠ z m) :
+    ∃ d : ℝ, 0 < d ∧ eigenDenom (twiddles ω nfft) cols S T P nfft ev k = (d : F) :=
+  denominator_pos_off_tones hn hω hstar hP T z hT cols S T ev v hcols
+    (span_of_linearIndependent P T z v hT.le hzinj hli (fun i h1 h2 =>
+      null_vector_vanishes N P T c z (v i) hz0 hc hzinj hNP (hsvd i h1 h2))) hS k hk
+
+/-- **pole iff tone** on the FFT grid: under the hypotheses of both directions (noise vectors are null
+    vectors of `FB` and span its null space) the denominator at bin `k` is zero IFF `ω^k` is one of the
+    `T` tones. -/
+theorem pole_iff_tone {ω : F} {nfft P : ℕ} (hn : 0 < nfft) (hω : ω ^ nfft = 1)
+    (hstar : star ω = ω⁻¹) (hP : P ≤ nfft) (N T : ℕ) (c z : ℕ → F) (hT : T < P)
+    (hz0 : ∀ m, m < T → z m ≠ 0) (hunit : ∀ m, m < T → star (z m) = (z m)⁻¹)
+    (hc : ∀ m, m < T → c m ≠ 0)
+    (hzinj : ∀ m m', m < T → m' < T → z m = z m' → m = m') (hNP : T ≤ fbNP N P)
+    (cols : List (List F)) (S : List F) (nsig : ℕ) (ev : Bool) (v : ℕ → ℕ → F)
+    (hcols : ∀ i, nsig ≤ i → i < P → cols.getD i [] = vec P (fun K => -star (v i K)))
+    (hsvd : ∀ i, nsig ≤ i → i < P → ∀ I, I < T →
+      ∑ K ∈ range P, mentryM (fbMatrix (tones N T c z) P) I K * v i K = 0)
+    (hspan : ∀ u : ℕ → F,
+      (∀ r, r < 2 * fbNP N P →
+        ∑ K ∈ range P, mentryM (fbMatrix (tones N T c z) P) r K * u K = 0) →
+      ∃ a : ℕ → F, ∀ K, K < P → u K = ∑ i ∈ Ico nsig P, a i * v i K)
+    (hS : ev = true → ∀ i, nsig ≤ i → i < P → ∃ s : ℝ, 0 < s ∧ nth S i = (s : F))
+    (k : ℕ) :
+    eigenDenom (twiddles ω nfft) cols S nsig P nfft ev k = 0 ↔ ∃ m, m < T ∧ ω ^ k = z m := by
+  constructor
+  · intro h0
+    by_contra hcon
+    obtain ⟨d, hd, he⟩ := denominator_vanishes_only_at_tones hn hω hstar hP N T c z hT hz0 hunit
+      cols S nsig ev v hcols hspan hS k (fun m hm h => hcon ⟨m, hm, h⟩)
+    rw [h0] at he
+    exact hd.ne' (RCLike.ofReal_eq_zero.mp he.symm)
+  · rintro ⟨m, hm, hk⟩
+    exact denominator_vanishes_at_tones hn hω hstar hP N T c z hz0 hc hzinj hNP cols S nsig ev v
+      hcols hsvd m hm k hk
+
+/-- pole iff tone, SVD contract in the form "`NSIG = T`, the noise vectors are `P - T` linearly
+    independent null vectors of `FB`" -/
+theorem pole_iff_tone_of_linearIndependent {ω : F} {nfft P : ℕ} (hn : 0 < nfft)
+    (hω : ω ^ nfft = 1) (hstar : star ω = ω⁻¹) (hP : P ≤ nfft) (N T : ℕ) (c z : ℕ → F) (hT : T < P)
+    (hz0 : ∀ m, m < T → z m ≠ 0) (hc : ∀ m, m < T → c m ≠ 0)
+    (hzinj : ∀ m m', m < T → m' < T → z m = z m' → m = m') (hNP : T ≤ fbNP N P)
+    (cols : List (List F)) (S : List F) (ev : Bool) (v : ℕ → ℕ → F)
+    (hcols : ∀ i, T ≤ i → i < P → cols.getD i [] = vec P (fun K => -star (v i K)))
+    (hsvd : ∀ i, T ≤ i → i < P → ∀ I, I < T →
+      ∑ K ∈ range P, mentryM (fbMatrix (tones N T c z) P) I K * v i K = 0)
+    (hli : LinearIndependent F (fun (i : Fin (P - T)) (K : Fin P) => v (T + i) K))
+    (hS : ev = true → ∀ i, T ≤ i → i < P → ∃ s : ℝ, 0 < s ∧ nth S i = (s : F))
+    (k : ℕ) :
+    eigenDenom (twiddles ω nfft) cols S T P nfft ev k = 0 ↔ ∃ m, m < T ∧ ω ^ k = z m := by
+  constructor
+  · intro h0
+    by_contra hcon
+    obtain ⟨d, hd, he⟩ := denominator_vanishes_only_at_tones_of_linearIndependent hn hω hstar hP
+      N T c z hT hz0 hc hzinj hNP cols S ev v hcols hsvd hli hS k (fun m hm h => hcon ⟨m, hm, h⟩)
+    rw [h0] at he
+    exact hd.ne' (RCLike.ofReal_eq_zero.mp he.symm)
+  · rintro ⟨m, hm, hk⟩
+    exact denominator_vanishes_at_tones hn hω hstar hP N T c z hz0 hc hzinj hNP cols S T ev v
+      hcols hsvd m hm k hk
+
+/-
+  Exact-arithmetic content of "the K largest local maxima of the pseudo-spectrum lie at the true
+  frequencies": with `NSIG`-independent hypotheses as in `pole_iff_tone`, for every signed frequency bin
+  `b` of the output (`-h ≤ b < NFFT - h`) the entry of `eigen(...)[0]` at index `h + b` is `1 / d` where
+  `d` is the denominator at the FFT bin of `b`; `d = 0` (a pole, numerically `1/ε`) IFF `ω^{-b}` is one of
+  the `T` tones; at every other bin `d` is a positive real and the entry is the finite positive real
+  `1 / d`.  Still not covered: tones between grid points, and a quantitative floating-point bound.
+-/
+/-- **poles exactly at the true frequencies** (function output; strengthens
+    `peaks_at_true_frequencies_partial` by the converse and by positivity/finiteness elsewhere) -/
+theorem peaks_exactly_at_true_frequencies {ω : F} {nfft P : ℕ} (hn : 0 < nfft) (hω : ω ^ nfft = 1)
+    (hstar : star ω = ω⁻¹) (hP : P ≤ nfft) (N T : ℕ) (c z : ℕ → F) (hT : T < P)
+    (hz0 : ∀ m, m < T → z m ≠ 0) (hunit : ∀ m, m < T → star (z m) = (z m)⁻¹)
+    (hc : ∀ m, m < T → c m ≠ 0)
+    (hzinj : ∀ m m', m < T → m' < T → z m = z m' → m = m') (hNP : T ≤ fbNP N P)
+    (cols : List (List F)) (S : List F) (nsig : ℕ) (ev : Bool) (v : ℕ → ℕ → F)
+    (hcols : ∀ i, nsig ≤ i → i < P → cols.getD i [] = vec P (fun K => -star (v i K)))
+    (hsvd : ∀ i, nsig ≤ i → i < P → ∀ I, I < T →
+      ∑ K ∈ range P, mentryM (fbMatrix (tones N T c z) P) I K * v i K = 0)
+    (hspan : ∀ u : ℕ → F,
+      (∀ r, r < 2 * fbNP N P →
+        ∑ K ∈ range P, mentryM (fbMatrix (tones N T c z) P) r K * u K = 0) →
+      ∃ a : ℕ → F, ∀ K, K < P → u K = ∑ i ∈ Ico nsig P, a i * v i K)
+    (hS : ev = true → ∀ i, nsig ≤ i → i < P → ∃ s : ℝ, 0 < s ∧ nth S i = (s : F))
+    (b : Int) (h1 : -((nfft / 2 : ℕ) : Int) ≤ b) (h2 : b < (nfft : Int) - ((nfft / 2 : ℕ) : Int)) :
+    nth (eigenPsd (twiddles ω nfft) cols S nsig P nfft ev) (((nfft / 2 : ℕ) : Int) + b).toNat
+        = 1 / eigenDenom (twiddles ω nfft) cols S nsig P nfft ev (fftBinOf nfft b) ∧
+    (eigenDenom (twiddles ω nfft) cols S nsig P nfft ev (fftBinOf nfft b) = 0
+        ↔ ∃ m, m < T ∧ z m = ω ^ (-b)) ∧
+    ((∀ m, m < T → z m ≠ ω ^ (-b)) → ∃ d : ℝ, 0 < d ∧
+      eigenDenom (twiddles ω nfft) cols S nsig P nfft ev (fftBinOf nfft b) = (d : F) ∧
+      0 < 1 / d ∧
+      nth (eigenPsd (twiddles ω nfft) cols S nsig P nfft ev) (((nfft / 2 : ℕ) : Int) + b).toNat
+        = ((1 / d : ℝ) : F)) := by
+  have hent := eigenPsd_entry (twiddles ω nfft) cols S nsig P nfft ev b h1 h2
+  have hpow := (fftBinOf_spec hn hω b).2
+  refine ⟨hent, ?_, ?_⟩
+  · rw [pole_iff_tone hn hω hstar hP N T c z hT hz0 hunit hc hzinj hNP cols S nsig ev v hcols hsvd
+      hspan hS, hpow]
+    exact ⟨fun ⟨m, hm, h⟩ => ⟨m, hm, h.symm⟩, fun ⟨m, hm, h⟩ => ⟨m, hm, h.symm⟩⟩
+  · intro hoff
+    obtain ⟨d, hd, he⟩ := denominator_vanishes_only_at_tones hn hω hstar hP N T c z hT hz0 hunit
+      cols S nsig ev v hcols hspan hS (fftBinOf nfft b)
+      (fun m hm h => hoff m hm (by rw [← h, hpow]))
+    refine ⟨d, hd, he, one_div_pos.mpr hd, ?_⟩
+    rw [hent, he, RCLike.ofReal_div, RCLike.ofReal_one]
+
+/-- the same with `NSIG = T` and the noise vectors `P - T` linearly independent null vectors of `FB` -/
+theorem peaks_exactly_at_true_frequencies_of_linearIndependent {ω : F} {nfft P : ℕ} (hn : 0 < nfft)
+    (hω : ω ^ nfft = 1) (hstar : star ω = ω⁻¹) (hP : P ≤ nfft) (N T : ℕ) (c z : ℕ → F) (hT : T < P)
+    (hz0 : ∀ m, m < T → z m ≠ 0) (hc : ∀ m, m < T → c m ≠ 0)
+    (hzinj : ∀ m m', m < T → m' < T → z m = z m' → m = m') (hNP : T ≤ fbNP N P)
+    (cols : List (List F)) (S : List F) (ev : Bool) (v : ℕ → ℕ → F)
+    (hcols : ∀ i, T ≤ i → i < P → cols.getD i [] = vec P (fun K => -star (v i K)))
+    (hsvd : ∀ i, T ≤ i → i < P → ∀ I, I < T →
+      ∑ K ∈ range P, mentryM (fbMatrix (tones N T c z) P) I K * v i K = 0)
+    (hli : LinearIndependent F (fun (i : Fin (P - T)) (K : Fin P) => v (T + i) K))
+    (hS : ev = true → ∀ i, T ≤ i → i < P → ∃ s : ℝ, 0 < s ∧ nth S i = (s : F))
+    (b : Int) (h1 : -((nfft / 2 : ℕ) : Int) ≤ b) (h2 : b < (nfft : Int) - ((nfft / 2 : ℕ) : Int)) :
+    nth (eigenPsd (twiddles ω nfft) cols S T P nfft ev) (((nfft / 2 : ℕ) : Int) + b).toNat
+        = 1 / eigenDenom (twiddles ω nfft) cols S T P nfft ev (fftBinOf nfft b) ∧
+    (eigenDenom (twiddles ω nfft) cols S T P nfft ev (fftBinOf nfft b) = 0
+        ↔ ∃ m, m < T ∧ z m = ω ^ (-b)) ∧
+    ((∀ m, m < T → z m ≠ ω ^ (-b)) → ∃ d : ℝ, 0 < d ∧
+      eigenDenom (twiddles ω nfft) cols S T P nfft ev (fftBinOf nfft b) = (d : F) ∧
+      0 < 1 / d ∧
+      nth (eigenPsd (twiddles ω nfft) cols S T P nfft ev) (((nfft / 2 : ℕ) : Int) + b).toNat
+        = ((1 / d : ℝ) : F)) := by
+  have hent := eigenPsd_entry (twiddles ω nfft) cols S T P nfft ev b h1 h2
+  have hpow := (fftBinOf_spec hn hω b).2
+  refine ⟨hent, ?_, ?_⟩
+  · rw [pole_iff_tone_of_linearIndependent hn hω hstar hP N T c z hT hz0 hc hzinj hNP cols S ev v
+      hcols hsvd hli hS, hpow]
+    exact ⟨fun ⟨m, hm, h⟩ => ⟨m, hm, h.symm⟩, fun ⟨m, hm, h⟩ => ⟨m, hm, h.symm⟩⟩
+  · intro hoff
+    obtain ⟨d, hd, he⟩ := denominator_vanishes_only_at_tones_of_linearIndependent hn hω hstar hP
+      N T c z hT hz0 hc hzinj hNP cols S ev v hcols hsvd hli hS (fftBinOf nfft b)
+      (fun m hm h => hoff m hm (by rw [← h, hpow]))
+    refine ⟨d, hd, he, one_div_pos.mpr hd, ?_⟩
+    rw [hent, he, RCLike.ofReal_div, RCLike.ofReal_one]
+
+/-- non-vacuity (spanning form): one tone `x_n = (-1)^n`, `N = 5`, `P = 2`, `NFFT = 2`, `ω = -1`,
+    `NSIG = 1`, noise singular vector `(1,1)`: it annihilates the steering vector of `z = -1` (bin 1:
+    pole) and not that of `z = 1` (bin 0: no pole) -/
+example : eigenDenom (twiddles (-1 : ℂ) 2) [[], [-1, -1]] [2, 0] 1 2 2 false 1 = 0
+    ∧ eigenDenom (twiddles (-1 : ℂ) 2) [[], [-1, -1]] [2, 0] 1 2 2 false 0 ≠ 0 := by
+  have key := pole_iff_tone (ω := (-1 : ℂ)) (nfft := 2) (P := 2) (by norm_num)
+    (by norm_num) (by simp) (le_refl _) 5 1 (fun _ => 1) (fun _ => -1) (by norm_num)
+    (by intro m _; norm_num) (by intro m _; simp) (by intro m _; norm_num)
+    (by intro m m' h h' _; omega) (by decide)
+    [[], [-1, -1]] [2, 0] 1 false (fun _ _ => 1)
+    (by
+      intro i h1 h2
+      have : i = 1 := by omega
+      subst this
+      simp [vec])
+    (by
+      intro i h1 h2 I hI
+      have : I = 0 := by omega
+      subst this
+      rw [Finset.sum_range_succ, Finset.sum_range_one,
+        fb_row_tone 5 2 1 0 0 _ _ (by intro m _; norm_num) (by decide) (by norm_num),
+        fb_row_tone 5 2 1 0 1 _ _ (by intro m _; norm_num) (by decide) (by norm_num)]
+      norm_num)
+    (by
+      intro u hu
+      have h0 := hu 0 (by decide)
+      rw [Finset.sum_range_succ, Finset.sum_range_one,
+        fb_row_tone 5 2 1 0 0 _ _ (by intro m _; norm_num) (by decide) (by norm_num),
+        fb_row_tone 5 2 1 0 1 _ _ (by intro m _; norm_num) (by decide) (by norm_num)] at h0
+      norm_num at h0
+      refine ⟨fun _ => u 0, ?_⟩
+      intro K hK
+      have e : u 1 = u 0 := by linear_combination h0
+      interval_cases K <;> simp [e])
+    (by intro h; exact absurd h (by simp))
+  constructor
+  · exact (key 1).mpr ⟨0, by norm_num, by norm_num⟩
+  · rw [Ne, key 0]
+    rintro ⟨m, _, h⟩
+    norm_num at h
+
+/-- non-vacuity (linear-independence form, EV with noise singular value `1`): same instance -/
+example : eigenDenom (twiddles (-1 : ℂ) 2) [[], [-1, -1]] [2, 1] 1 2 2 true 1 = 0
+    ∧ eigenDenom (twiddles (-1 : ℂ) 2) [[], [-1, -1]] [2, 1] 1 2 2 true 0 ≠ 0 := by
+  have key := pole_iff_tone_of_linearIndependent (ω := (-1 : ℂ)) (nfft := 2) (P := 2)
+    (by norm_num) (by norm_num) (by simp) (le_refl _) 5 1 (fun _ => 1) (fun _ => -1) (by norm_num)
+    (by intro m _; norm_num) (by intro m _; norm_num)
+    (by intro m m' h h' _; omega) (by decide)
+    [[], [-1, -1]] [2, 1] true (fun _ _ => 1)
+    (by
+      intro i h1 h2
+      have : i = 1 := by omega
+      subst this
+      simp [vec])
+    (by
+      intro i h1 h2 I hI
+      have : I = 0 := by omega
+      subst this
+      rw [Finset.sum_range_succ, Finset.sum_range_one,
+        fb_row_tone 5 2 1 0 0 _ _ (by intro m _; norm_num) (by decide) (by norm_num),
+        fb_row_tone 5 2 1 0 1 _ _ (by intro m _; norm_num) (by decide) (by norm_num)]
+      norm_num)
+    (by
+      rw [Fintype.linearIndependent_iff]
+      intro g hg i
+      have := congrFun hg ⟨0, by norm_num⟩
+      have hi : i = ⟨0, by norm_num⟩ := Fin.ext (by omega)
+      subst hi
+      simpa using this)
+    (by
+      intro _ i h1 h2
+      have : i = 1 := by omega
+      subst this
+      exact ⟨1, one_pos, by simp [nth]⟩)
+  constructor
+  · exact (key 1).mpr ⟨0, by norm_num, by norm_num⟩
+  · rw [Ne, key 0]
+    rintro ⟨m, _, h⟩
+    norm_num at h
+
+end Only
 
 section Rules
 variable {F : Type} [Field F]
